@@ -197,6 +197,7 @@ package goose
 //@ func getIntegerType (t)
 //@   ensures [only the modelled integer types are integer types] result.1 ==> modelledint(t)
 //@   ensures [anything else has no width] !result.1 ==> result.0.width == 0 && !result.0.isUntyped
+//@   ensures [the untyped flag is for untyped constants] result.1 ==> (result.0.isUntyped <==> bkind(t) == types.UntypedInt)
 //@ func (Ctx).basicLiteral (ctx, e)
 //@   may_reject
 //@   ensures [only string and integer literals] e.Kind == token.STRING || e.Kind == token.INT
@@ -216,7 +217,71 @@ package goose
 //@   loop 1 invariant [results so far are unnamed] forall i int :: 0 <= i && i <= rangeindex ==> len(rs[i].Names) == 0
 //@ func (Ctx).compositeLiteral (ctx, e)
 //@   may_reject
+//@   ensures [a term is returned] result != nil
 //@   ensures [slice literals have at most one element] typeis(pure(types.Type, "(go/types.Type).Underlying", pure(types.Type, "(*go/types.Info).TypeOf", ctx.info, ast.Expr(e))), *types.Slice) ==> len(e.Elts) <= 1
+
+// ---- rejections found unpinned by the mutation sweep (/verif/mutate/rejections.py) ---------------
+// Every clause says: returning normally implies the construct is one goose has a translation for.
+// Removing the corresponding rejection makes the function return (an empty or wrong term) for a
+// construct outside the subset, which fails the clause.
+
+//@ ghost func tyof(ctx Ctx, e ast.Expr) types.Type = pure(types.Type, "(*go/types.Info).TypeOf", ctx.info, e)
+//@ ghost func utype(t types.Type) types.Type = pure(types.Type, "(go/types.Type).Underlying", t)
+//@ ghost func identnamed(e ast.Expr, s string) bool = typeis(e, *ast.Ident) && e.(*ast.Ident).Name == s
+
+//@ func (Ctx).typeParamList (ctx, fs)
+//@   may_reject
+//@   ensures [every type parameter is named] fs != nil ==> forall i int :: 0 <= i && i < len(fs.List) ==> len(fs.List[i].Names) != 0
+//@   loop 1 invariant [type parameters so far are named] forall i int :: 0 <= i && i <= rangeindex ==> len(fs.List[i].Names) != 0
+//@ func (Ctx).structFields (ctx, fs)
+//@   may_reject
+//@   ensures [exactly one name per struct field: no embedded fields, no shared types] forall i int :: 0 <= i && i < len(fs.List) ==> len(fs.List[i].Names) == 1
+//@   loop 1 invariant [fields so far have one name] forall i int :: 0 <= i && i <= rangeindex ==> len(fs.List[i].Names) == 1
+//@ func (Ctx).lockMethod (ctx, f)
+//@   may_reject
+//@   ensures [only Lock and Unlock of a mutex] f.Sel.Name == "Lock" || f.Sel.Name == "Unlock"
+//@ func (Ctx).condVarMethod (ctx, f)
+//@   may_reject
+//@   ensures [only Signal, Broadcast and Wait of a condition variable] f.Sel.Name == "Signal" || f.Sel.Name == "Broadcast" || f.Sel.Name == "Wait"
+//@ func (Ctx).waitGroupMethod (ctx, f, args)
+//@   may_reject
+//@   ensures [only Add, Done and Wait of a wait group] f.Sel.Name == "Add" || f.Sel.Name == "Done" || f.Sel.Name == "Wait"
+//@ func (Ctx).prophIdMethod (ctx, f, args)
+//@   may_reject
+//@   ensures [only the Resolve methods of a prophecy variable] f.Sel.Name == "ResolveBool" || f.Sel.Name == "ResolveU64"
+//@ func (Ctx).packageMethod (ctx, f, call)
+//@   may_reject
+//@   ensures [a term is returned] result != nil
+//@   ensures [only the modelled primitives of package machine] identnamed(f.X, "machine") || identnamed(f.X, "primitive") ==> f.Sel.Name == "UInt64Get" || f.Sel.Name == "UInt64Put" || f.Sel.Name == "UInt32Get" || f.Sel.Name == "UInt32Put" || f.Sel.Name == "RandomUint64" || f.Sel.Name == "UInt64ToString" || f.Sel.Name == "Linearize" || f.Sel.Name == "Assume" || f.Sel.Name == "Assert" || f.Sel.Name == "Exit" || f.Sel.Name == "WaitTimeout" || f.Sel.Name == "Sleep" || f.Sel.Name == "TimeNow" || f.Sel.Name == "MapClear" || f.Sel.Name == "NewProph"
+//@   ensures [DPrintf is given a level and a format] identnamed(f.X, "util") && f.Sel.Name == "DPrintf" ==> len(call.Args) >= 2
+
+// "A term is returned": the rejections are followed by `return nil` / `return coq.CallExpr{}`; if one
+// of them stopped rejecting, the caller would get an empty term and emit it.
+//@ func (Ctx).selectorMethod (ctx, f, call)
+//@   may_reject
+//@   ensures [a term is returned] result != nil
+//@ ghost func calledfun(call *ast.CallExpr) ast.Expr = typeis(call.Fun, *ast.IndexExpr) ? call.Fun.(*ast.IndexExpr).X : (typeis(call.Fun, *ast.IndexListExpr) ? call.Fun.(*ast.IndexListExpr).X : call.Fun)
+//@ func (Ctx).methodExpr (ctx, call)
+//@   may_reject
+//@   ensures [only conversions and calls of named functions or methods] old(pure(bool, "(go/types.TypeAndValue).IsType", ctx.info.Types[call.Fun])) || typeis(calledfun(call), *ast.Ident) || typeis(calledfun(call), *ast.SelectorExpr)
+//@ func (Ctx).makeSliceExpr (ctx, elt, args)
+//@   may_reject
+//@   ensures [make of a slice has a length and at most a capacity] len(args) == 2 || len(args) == 3
+//@ func (Ctx).integerConversion (ctx, s, x, width)
+//@   may_reject
+//@   ensures [conversions only from the modelled, typed integer types] modelledint(tyof(ctx, x)) && bkind(tyof(ctx, x)) != types.UntypedInt
+//@ func (Ctx).selectExpr (ctx, e)
+//@   may_reject
+//@   ensures [a term is returned] result != nil
+//@ func (Ctx).nilExpr (ctx, e)
+//@   may_reject
+//@   ensures [nil only at pointer and slice types (and the untyped nil)] typeis(tyof(ctx, ast.Expr(e)), *types.Pointer) || typeis(tyof(ctx, ast.Expr(e)), *types.Slice) || typeis(tyof(ctx, ast.Expr(e)), *types.Basic)
+//@ func (Ctx).identExpr (ctx, e)
+//@   may_reject
+//@   ensures [of the predeclared identifiers only nil, true and false are values] old(has(ctx.info.Uses, e) && pure(*types.Scope, "(go/types.Object).Parent", ctx.info.Uses[e]) == types.Universe) ==> e.Name == "nil" || e.Name == "true" || e.Name == "false"
+//@ func (Ctx).indexExpr (ctx, e, isSpecial)
+//@   may_reject
+//@   ensures [indexing only into maps and slices] typeis(utype(tyof(ctx, e.X)), *types.Map) || typeis(utype(tyof(ctx, e.X)), *types.Slice)
 
 // ---- look-alikes: a builtin translation requires the universe builtin (C02) ----------------------
 
@@ -233,24 +298,31 @@ package goose
 
 // callExpr dispatches on the builtins: under C02 as well, so that the look-alike preconditions of
 // lenExpr/capExpr/makeExpr are obligations of that property at the dispatching calls.
+//@ ghost func builtincall(ctx Ctx, s *ast.CallExpr, name string) bool = isuniverse(ctx, s.Fun) && fname(s.Fun) == name
 //@ func (Ctx).callExpr (ctx, s)
 //@   may_reject
 //@   noframe
 //@   use ast
+//@   ensures [append takes a slice and one more argument] old(builtincall(ctx, s, "append")) ==> len(s.Args) == 2
+//@   ensures [delete only on maps] old(builtincall(ctx, s, "delete")) ==> typeis(tyof(ctx, s.Args[0]), *types.Map)
 //@ func (Ctx).isBuiltin (ctx, e, name)
 //@   ensures [true exactly for the identifier `name` denoting the predeclared object] result <==> (typeis(e, *ast.Ident) && e.(*ast.Ident).Name == name && univ(ctx.info, e))
 //@   modifies nothing
 //@ func (Ctx).makeExpr (ctx, args)
 //@   requires [type checker: a call of the universe make has at least one argument] len(args) >= 1
 //@   may_reject
+//@   ensures [make only of slices and maps, never of arrays] !(typeis(args[0], *ast.ArrayType) && args[0].(*ast.ArrayType).Len != nil)
+//@   ensures [make only of slices and maps] typeis(args[0], *ast.MapType) || typeis(args[0], *ast.ArrayType) || typeis(utype(tyof(ctx, args[0])), *types.Slice) || typeis(utype(tyof(ctx, args[0])), *types.Map)
 //@ func (Ctx).lenExpr (ctx, e)
 //@   requires [len denotes the universe builtin, not a user-defined look-alike] isuniverse(ctx, e.Fun)
 //@   trusted_requires [type checker: a call of the universe len has exactly one argument] len(e.Args) == 1
 //@   may_reject
+//@   ensures [length only of slices, maps and strings] typeis(utype(tyof(ctx, e.Args[0])), *types.Slice) || typeis(utype(tyof(ctx, e.Args[0])), *types.Map) || (typeis(utype(tyof(ctx, e.Args[0])), *types.Basic) && bkind(tyof(ctx, e.Args[0])) == types.String)
 //@ func (Ctx).capExpr (ctx, e)
 //@   requires [cap denotes the universe builtin, not a user-defined look-alike] isuniverse(ctx, e.Fun)
 //@   trusted_requires [type checker: a call of the universe cap has exactly one argument] len(e.Args) == 1
 //@   may_reject
+//@   ensures [capacity only of slices] typeis(utype(tyof(ctx, e.Args[0])), *types.Slice)
 
 // ---- per-package workers (C06, C07, C17) -----------------------------------------------------
 
@@ -302,8 +374,11 @@ package goose
 //@   may_reject
 //@   ensures [dependency on the struct recorded] depset[ref(ctx.dep)][info.name]
 //@ func (Ctx).structLiteral (ctx, info, e)
+//@   also C02 C07
 //@   may_reject
 //@   ensures [dependency on the struct recorded] depset[ref(ctx.dep)][info.name]
+//@   ensures [every field of a struct literal is keyed by an identifier] forall i int :: 0 <= i && i < len(e.Elts) ==> typeis(e.Elts[i], *ast.KeyValueExpr) && typeis(e.Elts[i].(*ast.KeyValueExpr).Key, *ast.Ident)
+//@   loop 1 invariant [fields so far are keyed by identifiers] forall i int :: 0 <= i && i <= rangeindex ==> typeis(e.Elts[i], *ast.KeyValueExpr) && typeis(e.Elts[i].(*ast.KeyValueExpr).Key, *ast.Ident)
 
 // A dependency is recorded only for names the output mentions: a pointer type is erased to ptrT
 // (its pointee is not mentioned), so translating `*T` records nothing. A spurious edge could close
